@@ -73,3 +73,7 @@ func KeeperStoreKey(module string) string {
 	}
 	return sk.Name()
 }
+
+// StaticCallArgFields / StaticStructInit: SSA facts (see engine/intr_static.go); not available natively.
+func StaticCallArgFields(fn, calleeSubstr string) []string { return nil }
+func StaticStructInit(fn, typeSubstr string) []string      { return nil }
